@@ -4,8 +4,7 @@ use libfuzzer_sys::fuzz_target;
 
 fuzz_target!(|data: &[u8]| {
     common::init();
-    let strat = lsmv::tablecheck::mixed_strategy(800);
-    let Some(case) = common::decode(&strat, data) else { return };
+    let case = lsmv::bytecase::decode_table_case(data, 800);
     if let Err(f) = lsmv::tablecheck::run(&case) {
         common::report("C12", serde_json::to_value(&case).unwrap_or_default(), &f.what);
     }
